@@ -1,8 +1,274 @@
 import BarterModel.Lemmas.Names
 import BarterModel.Props.C11
-/-! # C11N (sub-check of C11) -/
+/-!
+# C11N (sub-check of C11) — instrument / asset / exchange names and keys, and the lookup API of
+`IndexedInstruments`
+
+Statements only (helpers in `Lemmas/Names.lean`, the builder and its lemmas are those of C11).
+Strings are `List Char`; `lowerStr` is the model of `to_lowercase_smolstr` (exact on ASCII; the
+non-ASCII rows of its table are an assumption probed by the correspondence); `IsAscii s` restricts a
+statement to ASCII where the documentation ("lowercase") is unambiguous. `build defs = some ii`
+ranges over every `IndexedInstruments` the builder model can produce (C11 `build_total`: it always
+produces one), `buildS` is the same builder on string-named definitions through the name code.
+-/
 namespace BarterModel.Props.C11N
 open BarterModel.Names BarterModel.Index
+
+/-! ## A. the name constructors -/
+
+/-- The `if all chars lowercase` shortcut is unobservable: an internal name is the lower-cased input. -/
+theorem internal_name_is_lowercased (s : Str) :
+    (AssetNameInternal.new s).name = lowerStr s ∧ (InstrumentNameInternal.new s).name = lowerStr s :=
+  ⟨nameNew_eq_lowerStr s, nameNew_eq_lowerStr s⟩
+
+/-- Constructors are idempotent (all strings, including the modelled non-ASCII blocks). -/
+theorem asset_name_new_idempotent (s : Str) :
+    AssetNameInternal.new (AssetNameInternal.new s).name = AssetNameInternal.new s := by
+  simp [AssetNameInternal.new, nameNew_idem]
+
+theorem instrument_name_new_idempotent (s : Str) :
+    InstrumentNameInternal.new (InstrumentNameInternal.new s).name = InstrumentNameInternal.new s := by
+  simp [InstrumentNameInternal.new, nameNew_idem]
+
+/-- Refinement to the documented reading on ASCII: every capital Latin letter replaced by its small
+letter, nothing else touched, length kept. -/
+theorem internal_name_refines_spec (s : Str) (h : IsAscii s) :
+    (AssetNameInternal.new s).name = specLower s ∧ (InstrumentNameInternal.new s).name = specLower s ∧
+      (specLower s).length = s.length := by
+  have : nameNew s = specLower s := by
+    rw [nameNew_eq_lowerStr, lowerStr_ascii s h, specLower_eq]
+  exact ⟨this, this, by simp [specLower]⟩
+
+/-- Two ASCII inputs give the same internal name iff they are equal up to the case of Latin letters. -/
+theorem internal_name_eq_iff_caseEq (s t : Str) (hs : IsAscii s) (ht : IsAscii t) :
+    (AssetNameInternal.new s = AssetNameInternal.new t ↔ caseEq s t = true) ∧
+    (InstrumentNameInternal.new s = InstrumentNameInternal.new t ↔ caseEq s t = true) := by
+  have : nameNew s = nameNew t ↔ caseEq s t = true := by
+    rw [nameNew_eq_lowerStr, nameNew_eq_lowerStr, lowerStr_ascii s hs, lowerStr_ascii t ht, caseEq_iff]
+  constructor
+  · rw [← this]; simp [AssetNameInternal.new]
+  · rw [← this]; simp [InstrumentNameInternal.new]
+
+/-- Exchange names are kept verbatim: case matters. -/
+theorem exchange_names_verbatim (s t : Str) :
+    (AssetNameExchange.new s).name = s ∧ (InstrumentNameExchange.new s).name = s ∧
+    (AssetNameExchange.new s = AssetNameExchange.new t ↔ s = t) ∧
+    (InstrumentNameExchange.new s = InstrumentNameExchange.new t ↔ s = t) := by
+  simp [AssetNameExchange.new, InstrumentNameExchange.new]
+
+/-- `Display` and `Serialize` show the name; deserialising what was serialised gives the value back
+exactly for values that came out of a constructor … -/
+theorem serde_display_round_trip (s : Str) :
+    (AssetNameInternal.new s).display = (AssetNameInternal.new s).name ∧
+    AssetNameInternal.de (AssetNameInternal.new s).ser = AssetNameInternal.new s ∧
+    AssetNameInternal.de (AssetNameInternal.new s).display = AssetNameInternal.new s ∧
+    InstrumentNameInternal.de (InstrumentNameInternal.new s).ser = InstrumentNameInternal.new s ∧
+    AssetNameExchange.de (AssetNameExchange.new s).ser = AssetNameExchange.new s ∧
+    InstrumentNameExchange.de (InstrumentNameExchange.new s).ser = InstrumentNameExchange.new s := by
+  refine ⟨rfl, ?_, ?_, ?_, rfl, rfl⟩ <;>
+    simp [AssetNameInternal.de, AssetNameInternal.ser, AssetNameInternal.display, AssetNameInternal.new,
+      InstrumentNameInternal.de, InstrumentNameInternal.ser, InstrumentNameInternal.new, nameNew_idem]
+
+/-- … and for an arbitrary value (the field of `InstrumentNameInternal` is `pub`, so a value need not
+be lower-case) exactly when its name is already lower-case. -/
+theorem serde_round_trip_iff (x : InstrumentNameInternal) :
+    InstrumentNameInternal.de x.ser = x ↔ lowerStr x.name = x.name := by
+  obtain ⟨n⟩ := x
+  simp [InstrumentNameInternal.de, InstrumentNameInternal.ser, InstrumentNameInternal.new,
+    nameNew_eq_lowerStr]
+
+/-- `Asset::new_from_exchange` = `Asset::new` with the exchange name in both places. -/
+theorem asset_new_from_exchange (e : Str) :
+    Asset.newFromExchange e = Asset.new e e ∧ (Asset.newFromExchange e).nameInternal.name = lowerStr e ∧
+      (Asset.newFromExchange e).nameExchange.name = e :=
+  ⟨rfl, nameNew_eq_lowerStr e, rfl⟩
+
+/-! ## B. the `ExchangeId` table (42 variants; `decide` over the whole enum) -/
+
+theorem exchange_all_complete (e : ExchangeId) : e ∈ ExchangeId.all := mem_all e
+
+theorem exchange_all_length : ExchangeId.all.length = 42 ∧ ExchangeId.all.Nodup := by decide
+
+/-- Declaration position ↔ variant: a bijection onto `0..41`. -/
+theorem exchange_toNat_bijective :
+    (∀ e : ExchangeId, ExchangeId.ofNat? e.toNat = some e ∧ e.toNat < 42) ∧
+    (∀ a b : ExchangeId, a.toNat = b.toNat → a = b) ∧
+    (∀ n e, ExchangeId.ofNat? n = some e → e.toNat = n) := by
+  refine ⟨fun e => ⟨ofNat?_toNat e, toNat_lt e⟩, fun a b => toNat_inj, ?_⟩
+  have : ∀ n, n < 42 → ∀ e, ExchangeId.ofNat? n = some e → e.toNat = n := by decide
+  intro n e h
+  by_cases hn : n < 42
+  · exact this n hn e h
+  · simp only [ExchangeId.ofNat?] at h
+    have hlen : ExchangeId.all.length = 42 := by decide
+    rw [List.getElem?_eq_none (by omega)] at h
+    cases h
+
+theorem as_str_injective (a b : ExchangeId) (h : a.asStr = b.asStr) : a = b := by
+  have : ∀ a ∈ ExchangeId.all, ∀ b ∈ ExchangeId.all, a.asStr = b.asStr → a = b := by decide +kernel
+  exact this a (mem_all a) b (mem_all b) h
+
+/-- serde's snake_case rename of the variant identifier, `as_str`, and the documented reading
+(words of the identifier, lower-cased, joined by `_`) are one table. -/
+theorem ser_as_str_spec_agree (e : ExchangeId) :
+    e.ser = e.asStr ∧ e.asStr = specExchangeName e := by
+  have : ∀ e ∈ ExchangeId.all, e.ser = e.asStr ∧ e.asStr = specExchangeName e := by decide +kernel
+  exact this e (mem_all e)
+
+/-- `Display` is the variant identifier: never equal to `as_str`; lower-cased it is `as_str` with
+the underscores removed. -/
+theorem display_is_not_as_str (e : ExchangeId) :
+    e.display = e.variantName ∧ e.display ≠ e.asStr ∧
+      lowerStr e.display = e.asStr.filter (· != '_') := by
+  have : ∀ e ∈ ExchangeId.all, e.display ≠ e.asStr ∧
+      lowerStr e.display = e.asStr.filter (· != '_') := by decide +kernel
+  exact ⟨rfl, this e (mem_all e)⟩
+
+theorem de_ser (e : ExchangeId) : ExchangeId.de e.ser = some e := by
+  have : ∀ e ∈ ExchangeId.all, ExchangeId.de e.ser = some e := by decide +kernel
+  exact this e (mem_all e)
+
+/-- What deserialises to a variant: its `as_str`, and for `Htx` also the alias `huobi`. -/
+theorem de_some_iff (s : Str) (e : ExchangeId) :
+    ExchangeId.de s = some e ↔ s = e.asStr ∨ (s = "huobi".toList ∧ e = .htx) := by
+  constructor
+  · intro h
+    unfold ExchangeId.de at h
+    split at h
+    · rename_i e' he'
+      cases h
+      have := List.find?_some he'
+      simp only [decide_eq_true_eq] at this
+      exact Or.inl (by rw [← this, (ser_as_str_spec_agree e).1])
+    · split at h
+      · cases h; exact Or.inr ⟨‹_›, rfl⟩
+      · cases h
+  · rintro (rfl | ⟨rfl, rfl⟩)
+    · rw [← (ser_as_str_spec_agree e).1]; exact de_ser e
+    · decide +kernel
+
+/-- `as_str` is lower-case snake: a fixed point of the name constructor, and free of `-`. -/
+theorem as_str_is_lowercase (e : ExchangeId) :
+    lowerStr e.asStr = e.asStr ∧ '-' ∉ e.asStr ∧ IsAscii e.asStr := by
+  have : ∀ e ∈ ExchangeId.all, lowerStr e.asStr = e.asStr ∧ '-' ∉ e.asStr ∧ IsAscii e.asStr := by
+    decide +kernel
+  exact this e (mem_all e)
+
+/-! ## C. instrument names built from an exchange -/
+
+theorem lowcs_dash : lowcs '-' = ['-'] := by decide
+theorem lowcs_underscore : lowcs '_' = ['_'] := by decide
+
+/-- `new_from_exchange`, for every input: `as_str`, a dash, the lower-cased exchange name. -/
+theorem new_from_exchange_eq (e : ExchangeId) (s : Str) :
+    (InstrumentNameInternal.newFromExchange e s).name = e.asStr ++ '-' :: lowerStr s := by
+  simp only [InstrumentNameInternal.newFromExchange, InstrumentNameInternal.new,
+    InstrumentNameExchange.new, InstrumentNameExchange.display, nameNew_eq_lowerStr, lowerStr_append,
+    lowerStr_cons, (as_str_is_lowercase e).1, lowcs_dash]
+  rfl
+
+theorem new_from_exchange_refines_spec (e : ExchangeId) (s : Str) (h : IsAscii s) :
+    (InstrumentNameInternal.newFromExchange e s).name = specExchangeName e ++ '-' :: specLower s := by
+  rw [new_from_exchange_eq, lowerStr_ascii s h, specLower_eq, (ser_as_str_spec_agree e).2]
+
+theorem append_dash_inj : ∀ (a b x y : Str), '-' ∉ a → '-' ∉ b → a ++ '-' :: x = b ++ '-' :: y →
+    a = b ∧ x = y
+  | [], [], x, y, _, _, h => by simpa using h
+  | [], c :: b, x, y, _, hb, h => by
+    simp at h; exact absurd (List.mem_cons.mpr (Or.inl h.1)) hb
+  | c :: a, [], x, y, ha, _, h => by
+    simp at h; exact absurd (List.mem_cons.mpr (Or.inl h.1.symm)) ha
+  | c :: a, d :: b, x, y, ha, hb, h => by
+    simp only [List.cons_append, List.cons.injEq] at h
+    have := append_dash_inj a b x y (fun e => ha (by simp [e])) (fun e => hb (by simp [e])) h.2
+    exact ⟨by rw [h.1, this.1], this.2⟩
+
+/-- "Unique across exchanges": the name determines the exchange, and the exchange's instrument
+name up to case. -/
+theorem new_from_exchange_unique (e₁ e₂ : ExchangeId) (s₁ s₂ : Str) :
+    InstrumentNameInternal.newFromExchange e₁ s₁ = InstrumentNameInternal.newFromExchange e₂ s₂ ↔
+      e₁ = e₂ ∧ lowerStr s₁ = lowerStr s₂ := by
+  constructor
+  · intro h
+    have h' := congrArg InstrumentNameInternal.name h
+    rw [new_from_exchange_eq, new_from_exchange_eq] at h'
+    have := append_dash_inj _ _ _ _ (as_str_is_lowercase e₁).2.1 (as_str_is_lowercase e₂).2.1 h'
+    exact ⟨as_str_injective _ _ this.1, this.2⟩
+  · rintro ⟨rfl, h⟩
+    have : (InstrumentNameInternal.newFromExchange e₁ s₁).name =
+        (InstrumentNameInternal.newFromExchange e₁ s₂).name := by
+      rw [new_from_exchange_eq, new_from_exchange_eq, h]
+    cases h1 : InstrumentNameInternal.newFromExchange e₁ s₁
+    cases h2 : InstrumentNameInternal.newFromExchange e₁ s₂
+    simp_all
+
+/-- `new_from_exchange_underlying` formats the exchange with **`Display`**: the lower-cased variant
+identifier (no underscores), a dash, base, an underscore, quote. -/
+theorem new_from_exchange_underlying_eq (e : ExchangeId) (b q : Str) :
+    (InstrumentNameInternal.newFromExchangeUnderlying e b q).name =
+      lowerStr e.variantName ++ '-' :: lowerStr b ++ '_' :: lowerStr q := by
+  simp only [InstrumentNameInternal.newFromExchangeUnderlying, InstrumentNameInternal.new,
+    AssetNameExchange.new, AssetNameExchange.display, ExchangeId.display, nameNew_eq_lowerStr,
+    lowerStr_append, lowerStr_cons, lowcs_dash, lowcs_underscore]
+  simp
+
+/-- The two "from exchange" constructors name the same instrument differently exactly for the
+exchanges whose `as_str` contains an underscore (26 of the 42). -/
+theorem underlying_agrees_iff (e : ExchangeId) :
+    (∀ b q : Str, InstrumentNameInternal.newFromExchangeUnderlying e b q =
+        InstrumentNameInternal.newFromExchange e (b ++ '_' :: q)) ↔ '_' ∉ e.asStr := by
+  have key : ∀ e ∈ ExchangeId.all, (lowerStr e.variantName = e.asStr ↔ '_' ∉ e.asStr) := by
+    decide +kernel
+  rw [← key e (mem_all e)]
+  have ext : ∀ x y : InstrumentNameInternal, x = y ↔ x.name = y.name := by
+    intro x y; cases x; cases y; simp
+  have hname : ∀ b q : Str, (InstrumentNameInternal.newFromExchangeUnderlying e b q =
+      InstrumentNameInternal.newFromExchange e (b ++ '_' :: q)) ↔
+      lowerStr e.variantName ++ '-' :: lowerStr b ++ '_' :: lowerStr q =
+        e.asStr ++ '-' :: lowerStr b ++ '_' :: lowerStr q := by
+    intro b q
+    rw [ext, new_from_exchange_underlying_eq, new_from_exchange_eq, lowerStr_append, lowerStr_cons,
+      lowcs_underscore]
+    simp
+  constructor
+  · intro h
+    have := (hname [] []).mp (h [] [])
+    exact List.append_cancel_right (List.append_cancel_right this)
+  · intro h b q
+    rw [hname, h]
+
+/-- Concrete instance (the system configuration uses `new_from_exchange_underlying`, the test
+utilities and doc examples `new_from_exchange`). -/
+theorem underlying_differs_binance_spot :
+    (InstrumentNameInternal.newFromExchangeUnderlying .binanceSpot "btc".toList "usdt".toList).name =
+      "binancespot-btc_usdt".toList ∧
+    (InstrumentNameInternal.newFromExchange .binanceSpot "btc_usdt".toList).name =
+      "binance_spot-btc_usdt".toList := by decide +kernel
+
+/-- `new_from_exchange_underlying` does not determine (base, quote): the separator may occur in
+an asset name. -/
+theorem underlying_collision (e : ExchangeId) :
+    InstrumentNameInternal.newFromExchangeUnderlying e "a_b".toList "c".toList =
+      InstrumentNameInternal.newFromExchangeUnderlying e "a".toList "b_c".toList := by
+  have h1 := new_from_exchange_underlying_eq e "a_b".toList "c".toList
+  have h2 := new_from_exchange_underlying_eq e "a".toList "b_c".toList
+  have e1 : lowerStr "a_b".toList = "a_b".toList := by decide
+  have e2 : lowerStr "c".toList = "c".toList := by decide
+  have e3 : lowerStr "a".toList = "a".toList := by decide
+  have e4 : lowerStr "b_c".toList = "b_c".toList := by decide
+  rw [e1, e2] at h1
+  rw [e3, e4] at h2
+  cases h3 : InstrumentNameInternal.newFromExchangeUnderlying e "a_b".toList "c".toList
+  cases h4 : InstrumentNameInternal.newFromExchangeUnderlying e "a".toList "b_c".toList
+  simp_all
+
+/-! ## D. the name code (strings → the naturals of the C11 model) -/
+
+/-- Injective and strictly monotone on names of at most `L` = 48 characters, with `decode` as left
+inverse: the C11 builder, run on codes, sorts and compares names exactly as Rust's `str` does. -/
+theorem name_code_faithful (s t : Str) (hs : s.length ≤ L) (ht : t.length ≤ L) :
+    (code s = code t ↔ s = t) ∧ (code s < code t ↔ s < t) ∧ decode (code s) = s :=
+  ⟨⟨code_inj s t hs ht, fun h => h ▸ rfl⟩, code_lt_iff s t hs ht, decode_code s hs⟩
 
 /-! ## E. the lookup API, for every index the builder can produce -/
 
